@@ -302,7 +302,59 @@ def op_merge_unit(req):
     return {"ok": True, "results": out}
 
 
-OPS = {"merge.unit": op_merge_unit, "overlap.unit": op_overlap_unit, "pipeline": op_pipeline, "preprocess": op_preprocess, "revise.unit": op_revise_unit, "guards.unit": op_guards_unit}
+def op_overlap_putfault(req):
+    """The real _process_overlap_job on the cached pair of every chromosome of a generated annotation pair, with a result queue whose
+    put fails once (the connection to the manager process is gone: BrokenPipeError / ConnectionResetError / EOFError) or works:
+    did the function end normally, and did the queue receive the result?"""
+    from vh import gen
+    from transposon.preprocess import PreProcessor
+    from transposon.overlap_manager import _OverlapJob, _process_overlap_job
+    from transposon.gene_data import GeneData
+    import process_genome, errno
+    d = tempfile.mkdtemp(prefix="vh_pf_")
+    try:
+        gpath, tpath, cpath = os.path.join(d, "genes.v2.tsv"), os.path.join(d, "tes.v2.mod.TEanno.tsv"), os.path.join(d, "cfg.ini")
+        gen.write_pair(req["case"], gpath, tpath, cpath)
+        out = os.path.join(d, "out"); ovl = os.path.join(out, "tmp", "overlap"); os.makedirs(ovl)
+        windows = process_genome.parse_algorithm_config(cpath)["window_range"]
+        pre = PreProcessor(gpath, tpath, out, False, "G", False)
+        pre.process()
+        res = []
+        for ji, (g_path, t_path) in enumerate(pre.data_filepaths()):
+            gd = GeneData.read(g_path)
+            opath = os.path.join(ovl, "G_" + gd.chromosome_unique_id + "_overlap.h5")
+            fault = req["faults"][ji % len(req["faults"])]
+            class RQ:
+                def __init__(self):
+                    self.items, self.calls = [], 0
+                def put(self, x, *a, **k):
+                    self.calls += 1
+                    if fault == "EPIPE":
+                        raise BrokenPipeError(errno.EPIPE, "Broken pipe (injected)")
+                    if fault == "ECONNRESET":
+                        raise ConnectionResetError(errno.ECONNRESET, "Connection reset by peer (injected)")
+                    if fault == "EOF":
+                        raise EOFError("injected")
+                    self.items.append(x)
+                put_nowait = put
+            rq = RQ()
+            job = _OverlapJob(gene_uid=gd.chromosome_unique_id, gene_path=g_path, te_path=t_path, output_filepath=opath, window_range=windows,
+                              gene_names=list(gd.names), progress_queue=_StubQ(), result_queue=rq, stop_event=None)
+            try:
+                _process_overlap_job(job)
+                ended = "normally"
+            except BaseException as e:  # noqa
+                ended = type(e).__name__
+            res.append({"chrom": gd.chromosome_unique_id, "fault": fault, "ended": ended, "put_calls": rq.calls,
+                        "results_received": len([x for x in rq.items if getattr(x, "exception", None) is None])})
+        return {"ok": True, "jobs": res}
+    except BaseException as e:  # noqa
+        return {"ok": False, "exc": type(e).__name__, "msg": str(e)[:300], "tb": traceback.format_exc()[-1200:]}
+    finally:
+        shutil.rmtree(d, ignore_errors=True)
+
+
+OPS = {"overlap.putfault": op_overlap_putfault, "merge.unit": op_merge_unit, "overlap.unit": op_overlap_unit, "pipeline": op_pipeline, "preprocess": op_preprocess, "revise.unit": op_revise_unit, "guards.unit": op_guards_unit}
 
 
 def main():
